@@ -68,7 +68,16 @@ def main(argv):
         try:
             mres = selftest.run_mutants(pid)
             sres = selftest.run_silence(pid) if pid in selftest.ALL else []
-            chk.selftest = {'mutants': mres, 'silence': sres}
+            pres = selftest.run_patches(pid)
+            chk.selftest = {'mutants': mres, 'silence': sres, 'patches': pres}
+            for r in pres:
+                what = ('the independently seeded change %s is reported by this check' if r['kind'] == 'seed'
+                        else 'the independently written behaviour-preserving refactoring %s raises no alarm') % r['patch']
+                if r['status'] in ('MISSED', 'ALARM'):
+                    chk.ob('%s:selftest:patch:%s' % (pid, r['patch']), 'selftest', what, False,
+                           'CHECKER DEFECT (%s): %s' % ('missed change' if r['status'] == 'MISSED' else 'false alarm', r.get('keys')))
+                elif r['status'] in ('reported', 'silent'):
+                    chk.ob('%s:selftest:patch:%s' % (pid, r['patch']), 'selftest', what, True, '%s' % (r.get('keys') or ''))
             for r in mres:
                 if r['status'] == 'MISSED':
                     chk.ob('%s:selftest:mutant:%s' % (pid, r['mutant']), 'selftest', 'the seeded mutant "%s" is reported by this check' % r.get('description', r['mutant']),
